@@ -512,9 +512,17 @@ def m_to_case(ex, site, a):
     for x in items:
         if is_sym(x):
             if not ex.branch(z3.ULT(x, 0x80)):
-                raise Unsupported('to_uppercase/to_lowercase of symbolic non-ASCII text')
+                # Unicode case tables are not encoded: the text is fixed to the solver's choice on this path (a stated
+                # sampling step, recorded in the decision trace) and std's own mapping is applied
+                bs2 = bytes((ex.concretize(b) if is_sym(b) else b) & 0xff for b in items)
+                ex.side['concretized_case_char'] = True
+                t = bs2.decode('utf-8', 'replace'); t = t.upper() if up else t.lower()
+                return pystr(t)
         elif x >= 0x80:
-            raise Unsupported('to_uppercase/to_lowercase of mixed symbolic non-ASCII text')
+            bs2 = bytes((ex.concretize(b) if is_sym(b) else b) & 0xff for b in items)
+            ex.side['concretized_case_char'] = True
+            t = bs2.decode('utf-8', 'replace'); t = t.upper() if up else t.lower()
+            return pystr(t)
     return string_of(map_ascii(items, None, 97 if up else 65, 122 if up else 90, -32 if up else 32))
 
 
@@ -699,7 +707,16 @@ def m_len_utf8(ex, site, a): return len(encode_utf8(ex, a[0]))
 
 @model('char::encode_utf8')
 def m_encode_utf8(ex, site, a):
-    return str_ref(encode_utf8(ex, a[0]))
+    """writes the char into the caller's buffer and returns the written prefix; panics when the buffer is too small"""
+    bs = encode_utf8(ex, a[0])
+    try:
+        buf = as_slice(ex, a[1])
+    except Unsupported:
+        return str_ref(bs)
+    if len(bs) > len(buf):
+        raise Panic('encode_utf8', 'encode_utf8: need %d bytes to encode the char but buffer has just %d' % (len(bs), len(buf)), ex.where())
+    buf.vec.items[buf.lo:buf.lo + len(bs)] = bs
+    return SliceRef(buf.vec, buf.lo, buf.lo + len(bs), 'str')
 
 
 @model('char::from_u32')
